@@ -880,8 +880,18 @@ def executeTplUnbuffered : Nat → Nat → Env → XM Unit
       | none =>
         let chain := chainOf st.cs.tpls (st.cs.tpls.size + 1) ti
         let root := st.cs.tpls[chain.headD ti]!
-        withFrame { id := 0, priv := [(b!"pongo2", metaCtx)], pub := newCtx, autoescape := true, macroDepth := 0,
-                    chain := chain, called := ti } (execNodes fuel root.nodes)
+        -- a new ExecutionContext: the per-execution state of cycle/ifchanged starts empty
+        -- and the state of the surrounding execution is untouched
+        let saved ← get
+        modify fun s => { s with cycle := [], changedV := [], changedC := [] }
+        let restore : XM Unit := modify fun s => { s with cycle := saved.cycle, changedV := saved.changedV, changedC := saved.changedC }
+        try
+          withFrame { id := 0, priv := [(b!"pongo2", metaCtx)], pub := newCtx, autoescape := true, macroDepth := 0,
+                      chain := chain, called := ti } (execNodes fuel root.nodes)
+          restore
+        catch e =>
+          restore
+          throw e
 
 end
 
